@@ -35,6 +35,23 @@ Definition str_false : bytes := [102;97;108;115;101].
 (* writeJSONString                                                                       *)
 (* ------------------------------------------------------------------------------------ *)
 
+(* linear-time list reversal (List.rev is quadratic under vm_compute) *)
+Definition frev (l : bytes) : bytes := rev_append l [].
+
+Fixpoint bytes_eqb (a b : bytes) : bool :=
+  match a, b with
+  | [], [] => true
+  | x :: a', y :: b' => (x =? y) && bytes_eqb a' b'
+  | _, _ => false
+  end.
+
+Fixpoint list_eqb {A} (f : A -> A -> bool) (a b : list A) : bool :=
+  match a, b with
+  | [], [] => true
+  | x :: a', y :: b' => f x y && list_eqb f a' b'
+  | _, _ => false
+  end.
+
 (* hexDigit: if b < 10 { '0'+b } else { 'a'+b-10 } *)
 Definition hex_digit (b : N) : N := if b <? 10 then 48 + b else 97 + b - 10.
 
@@ -56,8 +73,8 @@ Definition escape_seq (c : N) : bytes :=
    far - both kept REVERSED so that evaluation is linear *)
 Fixpoint wjs_loop (s rseg rout : bytes) : bytes :=
   match s with
-  | [] => List.rev (rseg ++ rout)                           (* remaining clean segment *)
-  | c :: r => if needs_escape c then wjs_loop r [] (List.rev (escape_seq c) ++ rseg ++ rout)
+  | [] => frev (rseg ++ rout)                           (* remaining clean segment *)
+  | c :: r => if needs_escape c then wjs_loop r [] (frev (escape_seq c) ++ rseg ++ rout)
               else wjs_loop r (c :: rseg) rout
   end.
 
@@ -101,7 +118,7 @@ Fixpoint jscan (st : jst) (acc : bytes) (s : bytes) : option (bytes * bytes) :=
   | c :: r =>
       match st with
       | JNormal =>
-          if c =? 34 then Some (List.rev acc, r)
+          if c =? 34 then Some (frev acc, r)
           else if c =? 92 then jscan JEsc acc r
           else if c <? 32 then None                    (* raw control character *)
           else jscan JNormal (c :: acc) r
@@ -123,7 +140,7 @@ Fixpoint jscan (st : jst) (acc : bytes) (s : bytes) : option (bytes * bytes) :=
               let a' := a * 16 + v in
               match k with
               | 1%nat => if (55296 <=? a') && (a' <=? 57343) then None
-                         else jscan JNormal (List.rev (utf8_encode a') ++ acc) r
+                         else jscan JNormal (frev (utf8_encode a') ++ acc) r
               | S k' => jscan (JU k' a') acc r
               | O => None
               end
@@ -469,6 +486,49 @@ Definition json_cell (t : ctype) (c : cell) : bytes :=
   | VBytes b => write_json_string b
   end.
 
+(* ---- BLOB cells in JSON: the deployed code (BlobRaw) and the proposed repair
+   (BlobDuckText: DuckDB's text form of the blob, Blob::ToString - printable ASCII except
+   backslash and quotes as is, every other byte as \xHH upper case).  Which one the current source
+   uses is re-extracted on every run (gen/Params_Codec.v). *)
+Inductive blob_mode := BlobRaw | BlobDuckText.
+
+Definition hex_upper (b : N) : N := if b <? 10 then 48 + b else 65 + b - 10.
+Definition blob_regular (c : N) : bool :=
+  (32 <=? c) && (c <=? 126) && negb (c =? 92) && negb (c =? 39) && negb (c =? 34).
+Definition blob_text_byte (c : N) : bytes :=
+  if blob_regular c then [c] else [92; 120; hex_upper (c / 16); hex_upper (c mod 16)].
+Definition blob_text (b : bytes) : bytes := flat_map blob_text_byte b.
+
+(* writeJSONBlob (fix): the text form written directly as a JSON string token *)
+Definition blob_json_byte (c : N) : bytes :=
+  if blob_regular c then [c] else [92; 92; 120; hex_upper (c / 16); hex_upper (c mod 16)].
+Definition write_json_blob (b : bytes) : bytes := 34 :: flat_map blob_json_byte b ++ [34].
+
+(* SPEC: parser of DuckDB's blob text form *)
+Definition hex_upper_val (c : N) : option N :=
+  if (48 <=? c) && (c <=? 57) then Some (c - 48)
+  else if (65 <=? c) && (c <=? 70) then Some (c - 55) else None.
+Inductive bst := BNormal | BSlash | BX | BH (hi : N).
+Fixpoint blob_scan (st : bst) (acc : bytes) (s : bytes) : option bytes :=
+  match s with
+  | [] => match st with BNormal => Some (frev acc) | _ => None end
+  | c :: r =>
+      match st with
+      | BNormal => if c =? 92 then blob_scan BSlash acc r
+                   else if blob_regular c then blob_scan BNormal (c :: acc) r else None
+      | BSlash => if c =? 120 then blob_scan BX acc r else None
+      | BX => match hex_upper_val c with Some h => blob_scan (BH h) acc r | None => None end
+      | BH h => match hex_upper_val c with Some l => blob_scan BNormal (h * 16 + l :: acc) r | None => None end
+      end
+  end.
+Definition blob_text_decode (s : bytes) : option bytes := blob_scan BNormal [] s.
+
+Definition json_cell_m (m : blob_mode) (t : ctype) (c : cell) : bytes :=
+  match m, t, c with
+  | BlobDuckText, TBin, VBytes b => write_json_blob b
+  | _, _, _ => json_cell t c
+  end.
+
 (* encodeColumn + encode<T>Column bodies: which primitive each Arrow type uses *)
 Definition mp_cell (t : ctype) (c : cell) : bytes :=
   match c with
@@ -563,6 +623,25 @@ Definition wire_class (t : ctype) : wclass :=
   | TOther _ => WText
   end.
 
+(* SPEC of the published contract, written from the client's side: how a consumer that only
+   sees the name in "types" must decode the column's non-null cells *)
+Definition class_of_name (n : bytes) : wclass :=
+  let is := bytes_eqb n in
+  if is [98;111;111;108] then WBool
+  else if is [105;110;116;56] then WInt true 8 else if is [105;110;116;49;54] then WInt true 16
+  else if is [105;110;116;51;50] then WInt true 32 else if is [105;110;116;54;52] then WInt true 64
+  else if is [117;105;110;116;56] then WInt false 8 else if is [117;105;110;116;49;54] then WInt false 16
+  else if is [117;105;110;116;51;50] then WInt false 32 else if is [117;105;110;116;54;52] then WInt false 64
+  else if is [102;108;111;97;116;51;50] then WF32 else if is [102;108;111;97;116;54;52] then WF64
+  else if is [116;105;109;101;115;116;97;109;112;91;115;93] then WTime USec
+  else if is [116;105;109;101;115;116;97;109;112;91;109;115;93] then WTime UMilli
+  else if is [116;105;109;101;115;116;97;109;112;91;117;115;93] then WTime UMicro
+  else if is [116;105;109;101;115;116;97;109;112;91;110;115;93] then WTime UNano
+  else if is [100;97;116;101;51;50] then WDate
+  else if is [117;116;102;56] then WStr else if is [108;97;114;103;101;95;117;116;102;56] then WStr
+  else if is [98;105;110;97;114;121] then WBin
+  else WText.
+
 (* ------------------------------------------------------------------------------------ *)
 (* row limit, response envelopes                                                          *)
 (* ------------------------------------------------------------------------------------ *)
@@ -611,8 +690,8 @@ Definition is_int_type (t : ctype) : bool :=
 
 Definition row := list cell.
 
-Definition json_row (types : list ctype) (r : row) : bytes :=
-  91 :: join_comma (map (fun tc => json_cell (fst tc) (snd tc)) (combine types r)) ++ [93].
+Definition json_row (m : blob_mode) (types : list ctype) (r : row) : bytes :=
+  91 :: join_comma (map (fun tc => json_cell_m m (fst tc) (snd tc)) (combine types r)) ++ [93].
 
 (* {"success":true,"columns": *)
 Definition s_json_open : bytes :=
@@ -623,11 +702,11 @@ Definition s_json_data : bytes := [44;34;100;97;116;97;34;58;91].
 Definition s_json_rc : bytes := [93;44;34;114;111;119;95;99;111;117;110;116;34;58].
 
 (* streamArrowJSON up to and including the row_count value *)
-Definition json_body (names : list bytes) (types : list ctype) (limit : N) (bs : list (list row))
+Definition json_body (m : blob_mode) (names : list bytes) (types : list ctype) (limit : N) (bs : list (list row))
   : bytes * N :=
   let '(rows, rc) := emit_batches limit 0 bs in
   (s_json_open ++ write_json_string_array names ++ s_json_data
-     ++ join_comma (map (json_row types) rows) ++ s_json_rc ++ write_int (Z.of_N rc), rc).
+     ++ join_comma (map (json_row m types) rows) ++ s_json_rc ++ write_int (Z.of_N rc), rc).
 
 Definition s_success : bytes := [115;117;99;99;101;115;115].
 Definition s_columns : bytes := [99;111;108;117;109;110;115].
@@ -659,20 +738,6 @@ Definition mp_body (names : list bytes) (types : list ctype) (limit : N) (bs : l
 (* correspondence cases: observations of the real encoders, model agreement and oracle    *)
 (* ------------------------------------------------------------------------------------ *)
 
-Fixpoint bytes_eqb (a b : bytes) : bool :=
-  match a, b with
-  | [], [] => true
-  | x :: a', y :: b' => (x =? y) && bytes_eqb a' b'
-  | _, _ => false
-  end.
-
-Fixpoint list_eqb {A} (f : A -> A -> bool) (a b : list A) : bool :=
-  match a, b with
-  | [], [] => true
-  | x :: a', y :: b' => f x y && list_eqb f a' b'
-  | _, _ => false
-  end.
-
 Fixpoint forall2b {A B} (f : A -> B -> bool) (a : list A) (b : list B) : bool :=
   match a, b with
   | [], [] => true
@@ -680,24 +745,45 @@ Fixpoint forall2b {A B} (f : A -> B -> bool) (a : list A) (b : list B) : bool :=
   | _, _ => false
   end.
 
+(* ---- packed byte-string literals of the correspondence cases --------------------------
+   A byte string b0 b1 ... b(n-1) is written in the generated case files as ONE number
+   (sentinel 1 above the most significant byte, b0 least significant) because coqc
+   elaborates long lists of numerals slowly.  `pk` unpacks it (tooling, no theorem). *)
+Fixpoint unpack_pos (p : positive) (k : nat) (cur : N) : bytes :=
+  match p with
+  | xH => []
+  | xO q => match k with
+            | 7%nat => cur :: unpack_pos q 0 0
+            | _ => unpack_pos q (S k) cur
+            end
+  | xI q => let cur' := cur + 2 ^ N.of_nat k in
+            match k with
+            | 7%nat => cur' :: unpack_pos q 0 0
+            | _ => unpack_pos q (S k) cur'
+            end
+  end.
+Definition pk (n : N) : bytes := match n with N0 => [] | Npos p => unpack_pos p 0 0 end.
+
+Fixpoint pack_pos (l : bytes) : N := match l with [] => 1 | c :: r => c + 256 * pack_pos r end.
+
 Inductive vcase :=
   | CJStr (s out : bytes)
   | CJArr (ss : list bytes) (out : bytes)
-  | CCol (t : ctype) (tname : bytes) (batches : list (list cell))
+  | CCol (m : blob_mode) (t : ctype) (tname : bytes) (batches : list (list cell))
          (json : list (list bytes)) (mp : bytes)
-  | CResult (names : list bytes) (types : list ctype) (limit : N) (batches : list (list row))
+  | CResult (m : blob_mode) (names : list bytes) (types : list ctype) (limit : N) (batches : list (list row))
             (jbody : bytes) (jrc : N) (mbody : bytes) (mrc : N) (drained : list N).
 
 Definition case_agrees (c : vcase) : bool :=
   match c with
   | CJStr s out => bytes_eqb (write_json_string s) out
   | CJArr ss out => bytes_eqb (write_json_string_array ss) out
-  | CCol t tname batches json mp =>
+  | CCol m t tname batches json mp =>
       bytes_eqb (type_name t) tname
-      && list_eqb (list_eqb bytes_eqb) (map (map (json_cell t)) batches) json
+      && list_eqb (list_eqb bytes_eqb) (map (map (json_cell_m m t)) batches) json
       && bytes_eqb (concat (map (mp_cell t) (concat batches))) mp
-  | CResult names types limit bs jbody jrc mbody mrc drained =>
-      let '(jb, rc1) := json_body names types limit bs in
+  | CResult m names types limit bs jbody jrc mbody mrc drained =>
+      let '(jb, rc1) := json_body m names types limit bs in
       let '(mb, rc2, dr) := mp_body names types limit bs in
       bytes_eqb jb jbody && (rc1 =? jrc) && bytes_eqb mb mbody && (rc2 =? mrc)
       && list_eqb N.eqb dr drained
@@ -720,12 +806,12 @@ Definition cell_wire_eqb (a b : cell) : bool :=
 
 (* typed MessagePack cell decoder built from the spec decoders; floats keep their bits,
    times are rescaled to the column unit *)
-Definition mp_dec_cell (t : ctype) (s : bytes) : option (cell * bytes) :=
+Definition mp_dec_cell_w (w : wclass) (s : bytes) : option (cell * bytes) :=
   match s with
   | [] => None
   | c :: r =>
       if c =? 192 then Some (Null, r)
-      else match wire_class t with
+      else match w with
       | WBool => if c =? 195 then Some (VBool true, r) else if c =? 194 then Some (VBool false, r) else None
       | WInt _ _ => match mp_dec_int s with Some (z, rest) => Some (VInt z, rest) | None => None end
       | WF32 => if c =? 202 then match take_be 4 r with Some (b, rest) => Some (VFloat b [], rest) | None => None end else None
@@ -743,18 +829,18 @@ Definition mp_dec_cell (t : ctype) (s : bytes) : option (cell * bytes) :=
       end
   end.
 
-Fixpoint mp_dec_cells (t : ctype) (n : nat) (s : bytes) : option (list cell * bytes) :=
+Fixpoint mp_dec_cells (w : wclass) (n : nat) (s : bytes) : option (list cell * bytes) :=
   match n with
   | O => Some ([], s)
-  | S n' => match mp_dec_cell t s with
-            | Some (c, r) => match mp_dec_cells t n' r with
+  | S n' => match mp_dec_cell_w w s with
+            | Some (c, r) => match mp_dec_cells w n' r with
                              | Some (cs, rest) => Some (c :: cs, rest) | None => None end
             | None => None end
   end.
 
 (* JSON cell oracle: the token decodes to the value (strings / ints exactly; floats: null
    iff non-finite else a JSON number token; times: a quoted token without control bytes) *)
-Definition json_cell_oracle (t : ctype) (c : cell) (tok : bytes) : bool :=
+Definition json_cell_oracle (m : blob_mode) (t : ctype) (c : cell) (tok : bytes) : bool :=
   match c with
   | Null => bytes_eqb tok str_null
   | VBool b => bytes_eqb tok (if b then str_true else str_false)
@@ -764,7 +850,13 @@ Definition json_cell_oracle (t : ctype) (c : cell) (tok : bytes) : bool :=
       if nf then bytes_eqb tok str_null else json_number_ok tok
   | VTime _ txt => match json_scan tok with Some (d, []) => bytes_eqb d txt | _ => false end
   | VBytes b => no_ctl tok && utf8_valid tok          (* a JSON text must be UTF-8, RFC 8259 8.1 *)
-                && match json_scan tok with Some (d, []) => bytes_eqb d b | _ => false end
+                && match json_scan tok with
+                   | Some (d, []) =>
+                       match m, t with
+                       | BlobDuckText, TBin => match blob_text_decode d with Some b' => bytes_eqb b' b | None => false end
+                       | _, _ => bytes_eqb d b
+                       end
+                   | _ => false end
   end.
 
 Fixpoint scan_json_strings (n : nat) (s : bytes) : option (list bytes * bytes) :=
@@ -785,7 +877,7 @@ Fixpoint scan_json_strings (n : nat) (s : bytes) : option (list bytes * bytes) :
   end.
 
 (* columnar decode of the msgpack data section: ncols arrays of rc typed cells *)
-Fixpoint mp_dec_columns (types : list ctype) (rc : N) (s : bytes) : option (list (list cell) * bytes) :=
+Fixpoint mp_dec_columns (types : list wclass) (rc : N) (s : bytes) : option (list (list cell) * bytes) :=
   match types with
   | [] => Some ([], s)
   | t :: ts =>
@@ -828,10 +920,12 @@ Fixpoint mp_dec_names (ns : list bytes) (s : bytes) : option bytes :=
                 | None => None end
   end.
 
-Fixpoint mp_skip_strs (k : nat) (s : bytes) : option bytes :=
+Fixpoint mp_dec_strs (k : nat) (s : bytes) : option (list bytes * bytes) :=
   match k with
-  | O => Some s
-  | S k' => match mp_dec_str s with Some (_, r) => mp_skip_strs k' r | None => None end
+  | O => Some ([], s)
+  | S k' => match mp_dec_str s with
+            | Some (d, r) => match mp_dec_strs k' r with Some (ds, rest) => Some (d :: ds, rest) | None => None end
+            | None => None end
   end.
 
 Definition obind {A B} (o : option A) (f : A -> option B) : option B :=
@@ -847,9 +941,9 @@ Definition mp_body_oracle (names : list bytes) (types : list ctype) (limit : N) 
     obind (strip_prefix (mp_map_hdr 7 ++ mp_str s_success ++ mp_bool true ++ mp_str s_columns ++ mp_arr_hdr ncols) body) (fun r1 =>
     obind (mp_dec_names names r1) (fun r2 =>
     obind (strip_prefix (mp_str s_types ++ mp_arr_hdr ncols) r2) (fun r3 =>
-    obind (mp_skip_strs (length types) r3) (fun r4 =>
-    obind (strip_prefix (mp_str s_data ++ mp_arr_hdr ncols) r4) (fun r5 =>
-    obind (mp_dec_columns types rc r5) (fun cr =>
+    obind (mp_dec_strs (length types) r3) (fun tn =>
+    obind (strip_prefix (mp_str s_data ++ mp_arr_hdr ncols) (snd tn)) (fun r5 =>
+    obind (mp_dec_columns (map class_of_name (fst tn)) rc r5) (fun cr =>
     obind (strip_prefix (mp_str s_row_count) (snd cr)) (fun r7 =>
     obind (mp_dec_int r7) (fun zr =>
       Some (list_eqb (list_eqb cell_wire_eqb) (fst cr) (columns_from 0 (length types) rows)
@@ -872,13 +966,13 @@ Definition case_oracle (c : vcase) : bool :=
                  | _ => false end
           end
       | _ => false end
-  | CCol t tname batches json mp =>
+  | CCol m t tname batches json mp =>
       let cells := concat batches in
-      forall2b (fun cs toks => forall2b (fun c tok => json_cell_oracle t c tok) cs toks) batches json
-      && match mp_dec_cells t (length cells) mp with
+      forall2b (fun cs toks => forall2b (fun c tok => json_cell_oracle m t c tok) cs toks) batches json
+      && match mp_dec_cells (class_of_name tname) (length cells) mp with
          | Some (ds, []) => list_eqb cell_wire_eqb ds cells
          | _ => false end
-  | CResult names types limit bs jbody jrc mbody mrc drained =>
+  | CResult m names types limit bs jbody jrc mbody mrc drained =>
       let rows := expected_rows limit bs in
       (jrc =? N.of_nat (length rows))
       && mp_body_oracle names types limit bs mbody mrc
